@@ -710,6 +710,7 @@ func runC10(c *Ctx, r *Rec) {
 	}
 	al.freeze()
 	tokDFA := map[string]*DFA{}
+	tokPM := map[string]*DFA{} // leftmost-first: the words the matcher takes as a whole
 	for name, src := range st.matchers {
 		re, _ := parseRegex(src)
 		d, err := dfaFromRegexp(al, re)
@@ -718,6 +719,9 @@ func runC10(c *Ctx, r *Rec) {
 			return
 		}
 		tokDFA[name] = d.minimize()
+		if pm, err := preferredDFA(al, re); err == nil {
+			tokPM[name] = pm.minimize()
+		}
 	}
 	r.count("alphabet classes", al.n())
 	r.count("token automata", len(tokDFA))
@@ -772,6 +776,14 @@ func runC10(c *Ctx, r *Rec) {
 			o := r.fail("D1-leaf-scannable", construct, c.pos(fd.Pos()), fmt.Sprintf("the formatter can print %q, which the scanner's %s pattern /%s/ does not accept: the parser rejects (or splits) the formatter's own output", w, st.names[tok], st.matchers[tok]))
 			o.Witness = w
 			continue
+		}
+		// Go's matching prefers earlier alternatives: the printed word must be the match that is selected
+		if pm := tokPM[tok]; pm != nil && !li.imprecise {
+			if okPM, w := subsetOf(lang, pm); !okPM {
+				o := r.fail("D1-leaf-scannable", construct, c.pos(fd.Pos()), fmt.Sprintf("the formatter can print %q, which is in the language of the scanner's %s pattern /%s/, but leftmost-first matching prefers an earlier alternative and stops before the end of the word: the parser splits the formatter's own output", w, st.names[tok], st.matchers[tok]))
+				o.Witness = w
+				continue
+			}
 		}
 		// earlier-tried types must not match a prefix of word+follow
 		shadow := ""
@@ -1084,7 +1096,7 @@ func checkFormatterPurity(c *Ctx, r *Rec, fr *fmtRoles) {
 		}
 		r.check(bad == "", "D3-pure-function-of-argument", construct, c.pos(f.Pos()), "re-initialised before the traversal (or restored by defer)", bad)
 	}
-	r.floor("D3-pure-function-of-argument", 2)
+	r.floor("D3-pure-function-of-argument", 1)
 	for _, name := range sortedKeys(fr.ms) {
 		fd := fr.ms[name]
 		touches := false
